@@ -21,14 +21,11 @@ JUDGE = "SPECIFICATION Spec\nCHECK_DEADLOCK FALSE\n"
 CLAUSES = {"panic", "apply", "inverse", "bounds", "distance", "solid", "sdf", "meta", "ray", "ball"}
 
 
-def run(ctx):
+def chains_stage(ctx, clauses=None, label="chains"):
+    """Every chain of transform atoms, run against the real transforms and wrapped objects; clauses selects which
+    clauses of TransformJudge are claimed (C06 and C07 re-use the stage for transformed fields / colliders)."""
     quick = ctx.tier == "quick"
-    ctx.rule = ("every chain of <= 2 (thorough 3) atoms out of 13 in every order; per chain 150 lattice points (apply, inverse, "
-                "bounds) and 12 (30) seeded probes per wrapped object; non-trivial = chains of length >= 2")
-    ctx.assumptions = ["unit = 8 lattice steps: all images are integer vectors (the spec flags the rest as undecided)",
-                       "rotations are quarter / half turns (entries exact to 1 ulp); general angles are not covered",
-                       "ball tangency and rays not in general position are not decided"]
-    ctx.build_harness()
+    clauses = CLAUSES if clauses is None else clauses
     g = ctx.tlc("G", "solids/TransformGen", GEN % (2 if quick else 3), workers=8, timeout=900, tags=("CASE",))
     ctx.require_clean(g, "G")
     ctx.add_tlc_counts(g)
@@ -49,7 +46,7 @@ def run(ctx):
     if j.distinct != 2 * stats["records"]:
         raise Infra("judge examined %d states for %d records" % (j.distinct, stats["records"]))
     recs = {r["id"]: r for r in vlib.read_ndjson(rpath)}
-    rejects = [x for x in j.tagged("REJECT") if x[3] in CLAUSES]
+    rejects = [x for x in j.tagged("REJECT") if x[3] in clauses]
     for (_, rid, _l, clause) in rejects:
         rec = recs[rid]
         kinds = sorted({a[0] if a[0] in "TSVR" else "M" for a in rec["chain"]})
@@ -64,9 +61,20 @@ def run(ctx):
     ctx.counts["traces_validated_against_impl"] += stats["records"]
     ctx.counts["evaluations"] += stats["records"]
     ctx.counts["distinct_nontrivial"] += sum(1 for r in recs.values() if len(r["chain"]) >= 2)
-    ctx.stage("chains", kind="R+V", chains=len(cases), dist_chains=stats.get("dist", 0), rays_decided=decided,
-              rejected=len(rejects), clauses=sorted(CLAUSES))
+    ctx.stage(label, kind="R+V", chains=len(cases), dist_chains=stats.get("dist", 0), rays_decided=decided,
+              rejected=len(rejects), clauses=sorted(clauses))
     ctx.samples.append({"chain": cases[len(cases) // 2]})
+
+
+def run(ctx):
+    quick = ctx.tier == "quick"
+    ctx.rule = ("every chain of <= 2 (thorough 3) atoms out of 13 in every order; per chain 150 lattice points (apply, inverse, "
+                "bounds) and 12 (30) seeded probes per wrapped object; non-trivial = chains of length >= 2")
+    ctx.assumptions = ["unit = 8 lattice steps: all images are integer vectors (the spec flags the rest as undecided)",
+                       "rotations are quarter / half turns (entries exact to 1 ulp); general angles are not covered",
+                       "ball tangency and rays not in general position are not decided"]
+    ctx.build_harness()
+    chains_stage(ctx)
     ctx.extra["exhaustive"] = True
     squeeze_stage(ctx, quick)
 
